@@ -105,6 +105,12 @@ def run_programs(name, progs, scope, known, *, opts=None, kf_crosstalk="KF-K7-cr
                 br.undecided.append(f"{pid}:{o['name']}: {o['detail']}")
                 continue
             fid = classify(pid, src, o) if classify else None
+            if not fid:
+                # findings recorded by their witnesses only: exactly the listed (program, output) pairs
+                for kid, ent in known.items():
+                    if isinstance(ent, dict) and ent.get("match") == "witness" and f"{pid}:{o['name']}" in (ent.get("witnesses") or []):
+                        fid = kid
+                        break
             if fid and fid in known:
                 br.known_hits.append({"id": fid, "what": f"{pid}:{o['name']}"})
                 continue
